@@ -442,6 +442,27 @@ def check_run(res, fset, n, opts, sr, models, tier, seed):
         if bad:
             res.corr_failures.append({"relation": "harness wrote the specified text", "what": f"{len(bad)} lines differ", "case": dict(case, first=bad[0])})
             return
+    if kind == "csv":
+        # independent expectation for the unquoted leading fields the text rule puts into every record (the sequential oracle uses the
+        # library's own field parser, so a change to how a field is stored would move both sides together): an unquoted field is the
+        # text between two commas without its LEADING blanks (`ssline >> std::ws`); trailing blanks belong to the field. Fields 0, 1
+        # and 4 of `f,i,"q ""x"", y",  z<i%7> ,` are judged; how the quoted part splits is std::quoted's business and is not.
+        badf = []
+        for (f, i), v in oracle.items():
+            L = fset["files"][f][1][i]
+            head = f"{f},{i}," + '"q ""x"", y",' + f"  z{i % 7} ,"
+            if i % 19 == 5 or i % 17 == 3 or L < len(head):
+                continue
+            want = [str(f), str(i), f"z{i % 7}_"]
+            g = v.split(" ", 2)[2].split("|")
+            got = [g[1], g[2], g[5]] if len(g) > 6 else g
+            if got != want:
+                badf.append(((f, i), got, want))
+        if badf:
+            res.oracle_failures.append({"what": f"csv_parser: {len(badf)} records whose leading fields are not the text of the file, e.g. record {badf[0][0]}: "
+                                                f"fields {badf[0][1]} expected {badf[0][2]}", "signature": "csv-field-content", "case": dict(case, first=repr(badf[0]))})
+            return
+        res.count("csv: records with verified leading fields", sum(1 for (f, i) in oracle if not (i % 19 == 5 or i % 17 == 3)))
     if sorted(calls.keys()) != list(range(opts["calls"])):
         res.corr_failures.append({"relation": "harness performed the requested for_all calls", "what": f"calls seen {sorted(calls.keys())}", "case": case})
         return
